@@ -10,7 +10,8 @@ from auditok.io import BufferAudioSource, RawAudioSource, WaveAudioSource
 
 from .models import frame as F
 
-SOURCE_KINDS = ("bytes", "buffer_obj", "raw_eager", "raw_lazy", "wav_eager", "wav_lazy", "raw_obj", "wav_obj", "stdin")
+SOURCE_KINDS = ("bytes", "buffer_obj", "raw_eager", "raw_lazy", "wav_eager", "wav_lazy", "raw_obj", "wav_obj", "stdin", "buffer_obj_preconsumed")
+PRECONSUMED = 3  # samples already read from the source before the reader got it
 
 
 class FakeStdin:
@@ -59,6 +60,13 @@ def audio_of(case):
     return random.Random(case["seed"]).randbytes(case["nsamples"] * case["width"] * case["channels"])
 
 
+def effective_data(case, data):
+    """what the reader built for this case can see of `data`"""
+    if case["kind"] == "buffer_obj_preconsumed":
+        return data[PRECONSUMED * case["width"] * case["channels"] :]
+    return data
+
+
 def durations_of(case):
     rate = case["rate"]
     block_dur = (case["block"] + case.get("bfrac", 0)) / rate
@@ -92,6 +100,13 @@ def build_reader(case, data, tmpdir, cls=AudioReader, record=None):
         return cls(data, **kw, **ap), cleanup
     if kind == "buffer_obj":
         return cls(BufferAudioSource(data, rate, width, channels), **kw), cleanup
+    if kind == "buffer_obj_preconsumed":
+        # the source is already open and PRECONSUMED samples into its data: the reader sees the rest (callers pass the full
+        # data; effective_data() gives what the reader can see)
+        src = BufferAudioSource(data, rate, width, channels)
+        src.open()
+        src.read(PRECONSUMED)
+        return cls(src, **kw), cleanup
     if kind in ("raw_eager", "raw_lazy", "raw_obj"):
         path = os.path.join(tmpdir, "in.raw")
         with open(path, "wb") as fp:
